@@ -126,6 +126,10 @@ func (td *ComplexListTypeDef) Deserialize(dr *codec.DecodingReader) (View, error
 		if length > td.ListLimit {
 			return nil, fmt.Errorf("too many items, limit %d but got %d", td.ListLimit, length)
 		}
+		// a non-empty scope holds at least one element, and the offsets must fit in it
+		if firstOffset == 0 || uint64(firstOffset) > scope {
+			return nil, fmt.Errorf("first offset %d is invalid for scope %d", firstOffset, scope)
+		}
 		offsets := make([]uint32, length, length)
 		offsets[0] = firstOffset
 		prevOffset := firstOffset
